@@ -1,7 +1,8 @@
 (* Entry points of the extracted model: [run cmd arg]. *)
 From Coq Require Import NArith List Bool.
 From PV Require Import Base.Sx Model.Forest Model.Table Model.LRDriver Model.Scan Model.Parser
-  Validators.TableStruct Validators.ForestSound Validators.TableComplete Model.Errors Extract.Codec.
+  Validators.TableStruct Validators.ForestSound Validators.TableComplete Model.Errors
+  Proofs.UnambigProofs Extract.Codec.
 From PV Require Import Extract.RunC19.
 From PV Require Import Extract.RunC12.
 From PV Require Import Extract.RunC09.
@@ -74,6 +75,9 @@ Definition run_linecol (s : sx) : sx :=
   let lc := pos_to_line_col w p in
   L [A (fst lc); A (snd lc); ofB (is_eof w p)].
 
+(* 10: det_table (table) *)
+Definition run_det_table (s : sx) : sx := ofB (det_table (table_of_sx s)).
+
 Definition run (cmd : N) (arg : sx) : sx :=
   match cmd with
   | 1 => run_forest_stats arg
@@ -85,6 +89,7 @@ Definition run (cmd : N) (arg : sx) : sx :=
   | 7 => run_forest_trees arg
   | 8 => run_table_complete arg
   | 9 => run_linecol arg
+  | 10 => run_det_table arg
   | 190 => run_c19_unescape arg
   | 191 => run_c19_build arg
   | 192 => run_c19_match arg
